@@ -165,6 +165,17 @@ func (w *world) runtimeTxs() []txT {
 			r.EntityID = k.Entities[2].Public()
 			r.GovernanceModel = registry.GovernanceRuntime
 		})},
+		// pass every registry check, vetoed by the roothash application when it is notified (runtime messages / incoming messages above the roothash limits of 32)
+		{Name: "runtime-new(e1,max-messages 33 vetoed by roothash)", Signer: k.Entities[1], Method: registry.MethodRegisterRuntime, Body: rt(func(r *registry.Runtime) {
+			r.ID = other
+			r.EntityID = k.Entities[1].Public()
+			r.Executor.MaxMessages = 33
+		})},
+		{Name: "runtime-update(e0,owner->e1,max-in-msgs 33 vetoed by roothash)", Signer: k.Entities[0], Method: registry.MethodRegisterRuntime, Body: rt(func(r *registry.Runtime) {
+			r.EntityID = k.Entities[1].Public()
+			r.TxnScheduler.MaxInMessages = 33
+		})},
+		{Name: "runtime-update(e0,max-messages 33 vetoed by roothash)", Signer: k.Entities[0], Method: registry.MethodRegisterRuntime, Body: rt(func(r *registry.Runtime) { r.Executor.MaxMessages = 33 })},
 		{Name: "runtime-new(a0 no entity)", Signer: k.Accounts[0], Method: registry.MethodRegisterRuntime, Body: rt(func(r *registry.Runtime) { r.ID = other; r.EntityID = k.Accounts[0].Public() })},
 		nodeTx("node0-renew+compute(exp13)", rtNode(k.NodeDescriptor(0, 0, 13, node.RoleValidator|node.RoleComputeWorker)), k.NodeSigners(0), k.Nodes[0].NodeSigner),
 		nodeTx("node3-new validator+compute for e1", rtNode(k.NodeDescriptor(3, 1, 13, node.RoleValidator|node.RoleComputeWorker)), k.NodeSigners(3), k.Nodes[3].NodeSigner),
